@@ -326,6 +326,14 @@ func verifyFunctionCase(prog *Program, ctr *Contracts, key string, disabled map[
 			ex.addOblig("post", c.Label, fmt.Sprintf("contract line %d", c.Line), mkImp(reach, g), c.Src)
 		}
 	}
+	// a call-site assertion that names no existing call site is a stale contract
+	if when == nil && ex.discover == 0 {
+		for site := range fc.CallAsserts {
+			if !ex.usedAsserts[site] {
+				panic(oos("contract names call site %s, which does not exist (or is unreachable) in %s", site, key))
+			}
+		}
+	}
 	res.Obls = ex.obls
 	return
 }
